@@ -42,6 +42,7 @@ fn push_new(module: &mut Module, kind: &str, name: &str) {
     let n = name.to_string();
     let e = String::new;
     match kind {
+        "USER_RIGHTS" => module.user_rights.push(UserRights::new(n)),
         "AXIS_PTS" => module.axis_pts.push(AxisPts::new(n, e(), 0, "NO_INPUT_QUANTITY".into(), "rl".into(), 0.0, "NO_COMPU_METHOD".into(), 1, 0.0, 0.0)),
         "BLOB" => module.blob.push(Blob::new(n, e(), 0, 0)),
         "CHARACTERISTIC" => module.characteristic.push(Characteristic::new(n, e(), CharacteristicType::Value, 0, "rl".into(), 0.0, "NO_COMPU_METHOD".into(), 0.0, 0.0)),
@@ -159,9 +160,6 @@ struct OrderModel {
 fn check_order(cx: &Cx, om: &OrderModel, out: &[(String, String)], step: usize, op: &str) -> Result<BTreeMap<(String, String), usize>, Violation> {
     let mut pos: BTreeMap<(String, String), usize> = BTreeMap::new();
     for (i, e) in out.iter().enumerate() {
-        if !KINDS.contains(&e.0.as_str()) {
-            continue;
-        }
         if pos.insert(e.clone(), i).is_some() {
             return Err(cx.fail("order", "element-duplicated", format!("step {step} ({op}): {} {} appears twice in the output", e.0, e.1)));
         }
@@ -213,22 +211,54 @@ impl Scenario for C15Histories {
         let mut sizes = Vec::new();
         for mi in 0..nmodules {
             text.push_str(&format!("  /begin MODULE mod{mi} \"\"\n"));
-            if cx.tape.chance(1, 3) {
-                text.push_str("    /begin MOD_COMMON \"\" /end MOD_COMMON\n");
-            }
             let msize = if mi == 0 { size } else { *cx.tape.pick(&[0u64, 2, 6, 20]) };
-            sizes.push(msize as usize);
+            let mut elems: Vec<String> = Vec::new();
             for _ in 0..msize {
+                cx.tape.begin_group();
                 let kind = *cx.tape.pick(&kinds_here);
                 let name = fresh(cx);
+                elems.push(element_text(kind, &name));
+                cx.tape.end_group();
+            }
+            // the single optional blocks, IF_DATA and USER_RIGHTS also have a position among the other elements
+            let mut extras: Vec<String> = Vec::new();
+            if cx.tape.chance(1, 3) {
+                extras.push("/begin MOD_COMMON \"\" /end MOD_COMMON".to_string());
+            }
+            if cx.tape.chance(1, 4) {
+                extras.push("/begin MOD_PAR \"\" /end MOD_PAR".to_string());
+            }
+            if cx.tape.chance(1, 3) {
+                extras.push("/begin VARIANT_CODING /end VARIANT_CODING".to_string());
+            }
+            if cx.tape.chance(1, 5) {
+                extras.push("/begin A2ML block \"IF_DATA\" taggedunion { \"X\" int; }; /end A2ML".to_string());
+            }
+            for _ in 0..cx.tape.draw(3) {
+                let name = fresh(cx);
+                extras.push(format!("/begin IF_DATA VENDOR_{name} 1 2 /begin BLK x /end BLK /end IF_DATA"));
+            }
+            for _ in 0..cx.tape.draw(3) {
+                let name = fresh(cx);
+                extras.push(format!("/begin USER_RIGHTS user_{name} /end USER_RIGHTS"));
+            }
+            for x in extras {
+                // mostly at the top or at the end, where files usually have them, sometimes anywhere
+                let at = match cx.tape.draw(4) {
+                    0 => 0,
+                    1 => elems.len(),
+                    _ => cx.tape.draw(elems.len() as u64 + 1) as usize,
+                };
+                elems.insert(at, x);
+                cx.probe("optional-block-or-if_data-among-the-elements");
+            }
+            sizes.push(elems.len());
+            for e in elems {
                 if cx.tape.chance(1, 10) {
                     text.push_str(if cx.tape.chance(1, 2) { "    /* section comment */\n" } else { "    // line comment\n" });
                 }
-                if cx.tape.chance(1, 20) {
-                    text.push_str("    /begin IF_DATA VENDOR 1 2 /begin BLK x /end BLK /end IF_DATA\n");
-                }
                 text.push_str("    ");
-                text.push_str(&element_text(kind, &name));
+                text.push_str(&e);
                 text.push_str(if cx.tape.chance(1, 8) { "\n\n" } else { "\n" });
             }
             text.push_str("  /end MODULE\n");
@@ -251,7 +281,7 @@ impl Scenario for C15Histories {
         if scanned.len() != nmodules {
             return Err(cx.fail("order", "module-lost", format!("the initial file has {nmodules} modules, the first output {}", scanned.len())));
         }
-        let mut oms: Vec<OrderModel> = scanned.into_iter().map(|m| OrderModel { placed: m.into_iter().filter(|e| KINDS.contains(&e.0.as_str())).collect(), pending: Vec::new() }).collect();
+        let mut oms: Vec<OrderModel> = scanned.into_iter().map(|m| OrderModel { placed: m, pending: Vec::new() }).collect();
         for (mi, om) in oms.iter().enumerate() {
             if om.placed.len() != sizes[mi] {
                 return Err(cx.fail("order", "element-lost", format!("module {mi} of the initial file has {} elements, the first output {}", sizes[mi], om.placed.len())));
@@ -297,8 +327,12 @@ impl Scenario for C15Histories {
             match op {
                 0 => {
                     // mostly kinds that already exist in the file, sometimes any kind
-                    let kind = if !kinds_here.is_empty() && cx.tape.chance(3, 4) { *cx.tape.pick(&kinds_here) } else { *cx.tape.pick(&KINDS) };
-                    let name = fresh(cx);
+                    let mut kind = if !kinds_here.is_empty() && cx.tape.chance(3, 4) { *cx.tape.pick(&kinds_here) } else { *cx.tape.pick(&KINDS) };
+                    let mut name = fresh(cx);
+                    if cx.tape.chance(1, 12) {
+                        kind = "USER_RIGHTS";
+                        name = format!("user_{name}");
+                    }
                     let mi = cx.tape.draw(nmodules as u64) as usize;
                     desc = format!("push new {kind} {name} into module {mi}");
                     guarded(cx, "no-panic", &desc, || push_new(&mut file.project.module[mi], kind, &name))?;
